@@ -47,9 +47,11 @@ def prog():
 B_LIB = ("#[typeshare]\npub struct PLACEN { pub x: u32 }\n"
          "#[typeshare]\n#[serde(rename = \"Other\")]\npub struct Ren { pub y: u32 }\n"
          "#[typeshare]\npub struct Unused { pub z: u32 }\n"
-         "#[typeshare]\npub struct Gen<T> { pub t: T }\n")
+         "#[typeshare]\npub struct Gen<T> { pub t: T }\n"
+         "#[typeshare]\npub struct Solo { pub s: u32 }\n")
 C_LIB = ("#[typeshare]\npub struct PLACEN { pub w: String }\n"
-         "#[typeshare]\n#[serde(rename = \"OtherC\")]\npub struct Ren { pub yc: u32 }\n")
+         "#[typeshare]\n#[serde(rename = \"OtherC\")]\npub struct Ren { pub yc: u32 }\n"
+         "#[typeshare]\n#[serde(rename = \"SoloC\")]\npub struct Solo { pub sc: u32 }\n")
 A_OTHER = "#[typeshare]\npub struct Local { pub q: bool }\n"
 
 # form -> (use statement, how the type is spelled, expectation)
@@ -74,6 +76,7 @@ FORMS = {
     "serde-renamed": ("use b::Ren;", "Ren", ("import", "b", "Other")),
     "mapped": ("use b::Mapped;", "Mapped", ("none",)),
     "same-name-c": ("use c::PLACEN;", "PLACEN", ("import", "c", "N")),
+    "same-name-other-renamed": ("use b::Solo;", "Solo", ("import", "b", "Solo")),
     "same-name-renamed-b": ("use b::Ren;", "Ren", ("import", "b", "Other")),
     "same-name-renamed-c": ("use c::Ren;", "Ren", ("import", "c", "OtherC")),
     "same-name-b": ("use b::PLACEN;", "PLACEN", ("import", "b", "N")),
